@@ -7,6 +7,7 @@ import PgVerif.Spec.Rows
 import PgVerif.Model.Rows
 import PgVerif.Gen.Heap
 import PgVerif.Gen.Mutate
+import PgVerif.Gen.Toast
 namespace PgVerif.Gen
 open PgVerif PgVerif.Spec
 
@@ -42,6 +43,22 @@ def genPayload (n : Nat) : Gen Bytes := do
   | 2 => Gen.listOf n (Gen.oneOf [0, 1, 0x12, 0xff, 0x80, 0x41])  -- bytes that look like headers / padding
   | _ => Gen.listOf n (do return UInt8.ofNat (← Gen.range 1 255))
 
+/-- a compressed stream: pglz with every tag form (2- and 3-byte tags, lengths 3..273, offsets 1..4095, overlapping
+copies) or an LZ4 block (token nibbles 15 with extension bytes, 2-byte offsets) — the toast area's stream generators -/
+def genComp : Gen Comp := do
+  let n ← match ← Gen.below 4 with
+    | 0 => Gen.oneOf [4, 5, 18, 19, 33, 100]
+    | 1 => Gen.range 32 260
+    | _ => Gen.range 4 60
+  if ← Gen.prob 2 5 then return .lz4 (← Toast.genLz4Block n)
+  else return .pglz (← Toast.genPglzToks n)
+
+/-- an inline-compressed datum, or (stream too long for a row, or fewer than 4 stream bytes) the value stored plain -/
+def genCompDatum (c : Col) : Gen Datum := do
+  let z ← genComp
+  if decide ((Datum.compressed z).WF c) ∧ z.stored.length ≤ 140 then return .compressed z
+  else return .long (z.original.take 100)
+
 def genDatum (c : Col) : Gen Datum := do
   if c.len > 0 then
     if c.typid = 19 then
@@ -52,7 +69,7 @@ def genDatum (c : Col) : Gen Datum := do
   else if c.len = -1 then
     match ← Gen.below 10 with
     | 0 => return .external (← Gen.bytes 16)
-    | 1 => return .compressed (← genPayload (← Gen.range 4 40))
+    | 1 => genCompDatum c
     | 2 | 3 | 4 =>
       let n ← match ← Gen.below 4 with
         | 0 => Gen.oneOf [0, 1, 4, 12, 60, 124, 252, 127, 126]   -- total length 64k (first header byte 0), '' …
@@ -141,7 +158,7 @@ def exhDatum (k s i : Nat) : Option Datum :=
     | 2 => some (.long [b, b, b, b, b])
     | 3 => some (.external (List.replicate 16 b))
     | 4 => some (.short [])
-    | _ => some (.compressed [9, 0, 0, 0, b, b])
+    | _ => some (.compressed (.pglz [.lit b, .mat 1 8]))   -- 9 × b: control byte 02, b, tag 05 01
 
 /-- row `code` of the exhaustive enumeration for `n` columns: per column a digit in base |options|, then a
 variant digit: 0..7 = leading spacer of that many bytes with all attributes stored, 8.. = natts 0..n−1 -/
